@@ -4,6 +4,7 @@ import (
 	"fmt"
 	"net"
 	"sort"
+	"strings"
 	"time"
 
 	"github.com/Jigsaw-Code/outline-ss-server/verifrt/simnet"
@@ -357,10 +358,9 @@ func runC14(rc *RunCtx) {
 		rc.Nontrivial = true
 	}
 	// "its deadline never moves earlier": the read deadlines set on each outbound
-	// socket only grow, except for the fast close (the second deadline ever set on
-	// the socket, set to "now" after a response from a DNS server was read, the
-	// socket's first forward having been a DNS query) and for the listener's
-	// shutdown. Vacuous for an implementation that does not keep its deadline on
+	// socket only grow, except for the fast close (set to "now" after a response
+	// from a DNS server was read, the socket's only forward so far having been a
+	// DNS query) and for the listener's shutdown. Vacuous for an implementation that does not keep its deadline on
 	// the socket.
 	for _, sk := range outSocks {
 		firstDNS, haveFirst := false, false
@@ -370,15 +370,35 @@ func runC14(rc *RunCtx) {
 				break
 			}
 		}
-		cur := time.Duration(-1)
-		changes := 0 // deadlines set so far that differed from the one in force (clearing it and re-setting the same value do not count)
+		cur, curSeq := time.Duration(-1), 0
 		for i, r := range sk.DlLog {
-			if r.T >= 0 && r.T != cur {
-				changes++
+			// what the socket had sent when this deadline was set (ledger facts, not
+			// the number of SetReadDeadline calls: how often and when an
+			// implementation sets deadlines in between is its own business)
+			sentBefore := 0
+			for _, d := range w.Dgrams {
+				if d.FromSock == sk && d.ESeq < r.Seq {
+					sentBefore++
+				}
+			}
+			if sentBefore == 0 {
+				// a deadline put on a socket that has not forwarded anything yet is no
+				// promise to any client datagram
+				continue
 			}
 			if r.T >= 0 && cur >= 0 && r.T < cur {
 				legit := shutdownAt >= 0 && r.At >= shutdownAt
-				if changes == 2 && r.T <= r.At+skew && (firstDNS || !haveFirst) {
+				// the fast close: "now", the socket's only forward so far was a DNS
+				// query, and a datagram from a DNS server has been read
+				// ... and the deadline it cuts short was not an extension granted to a
+				// later datagram of the client (none had reached the proxy when it was set)
+				later := 0
+				for j, rec := range srv.Sock.ReadLog {
+					if sd := bySend[rec]; sd != nil && sd.client == sockClient[sk] && srv.Sock.ReadSeqs[j] > sk.CreatedSeq && srv.Sock.ReadSeqs[j] < curSeq {
+						later++
+					}
+				}
+				if sentBefore == 1 && later == 0 && r.T <= r.At+skew && firstDNS && haveFirst {
 					for j, rec := range sk.ReadLog {
 						if sk.ReadSeqs[j] < r.Seq && rec.From.Port == 53 {
 							legit = true
@@ -392,7 +412,7 @@ func runC14(rc *RunCtx) {
 				}
 			}
 			if r.T >= 0 {
-				cur = r.T
+				cur, curSeq = r.T, r.Seq
 			}
 		}
 	}
@@ -410,11 +430,7 @@ func runC14(rc *RunCtx) {
 			rc.Failf("removal-report-count", "association %d (%s): removal reported %d times by the time the system is idle", i, rec.Client, n)
 		}
 	}
-	for _, t := range simrt.Snapshot() {
-		if t.Kind == "repo" && !baseTasks[t.ID] {
-			rc.Failf("association-task-leak", "an association's copy goroutine is still alive when the system is idle: %s", describeTasks([]simrt.TaskInfo{t}))
-		}
-	}
+	c14leaks(rc, baseTasks, len(m.UDP))
 	fuzzyAny := false
 	for _, a := range assocs {
 		if a.fuzzy {
@@ -492,11 +508,7 @@ func runC14(rc *RunCtx) {
 		}
 	}
 	// end state: nothing of the proxy's associations is left
-	for _, t := range simrt.Snapshot() {
-		if t.Kind == "repo" && !baseTasks[t.ID] {
-			rc.Failf("association-task-leak", "an association's copy goroutine is still alive when the system is idle: %s", describeTasks([]simrt.TaskInfo{t}))
-		}
-	}
+	c14leaks(rc, baseTasks, len(m.UDP))
 	if shutdownAt < 0 {
 		srv.Stop()
 	}
@@ -508,4 +520,29 @@ func runC14(rc *RunCtx) {
 	}
 	simrt.Quiesce()
 	rc.Phase = "done"
+}
+
+// c14leaks: "idle clients never accumulate goroutines". When the system is idle
+// and every deadline has passed, a goroutine of the code under test that was
+// not there before the first datagram is a leak if it waits on a UDP socket (an
+// association's relay loop whose socket was never closed), or if there are as
+// many of them as there were associations (three or more: one per association).
+// A helper or two that the handler starts lazily and keeps for its own lifetime
+// do not accumulate.
+func c14leaks(rc *RunCtx, base map[int]bool, nAssoc int) {
+	var extra []simrt.TaskInfo
+	for _, t := range simrt.Snapshot() {
+		if t.Kind == "repo" && !base[t.ID] {
+			extra = append(extra, t)
+		}
+	}
+	for _, t := range extra {
+		if strings.HasPrefix(t.What, "udp read") {
+			rc.Failf("association-task-leak", "a goroutine started for an association is still reading its socket when the system is idle and every deadline has passed: %s", describeTasks([]simrt.TaskInfo{t}))
+			return
+		}
+	}
+	if nAssoc >= 3 && len(extra) >= nAssoc {
+		rc.Failf("association-task-leak", "%d associations have come and gone, the system is idle, and %d goroutines that were not there before the first datagram are still alive (one per association):%s", nAssoc, len(extra), describeTasks(extra))
+	}
 }
